@@ -334,6 +334,46 @@ func replScenario(out *Out, r *rand.Rand, sc int) {
 			time.Sleep(time.Duration(wr.Intn(25)) * time.Millisecond)
 		}
 	}()
+	// a second consumer of the leader's log - another follower cluster, as far as the leader can tell: it
+	// asks for random positions of the same tables all the time and throws the answers away (what it leaves
+	// behind in the leader's log cache must not change what OUR follower is told)
+	var wg2 sync.WaitGroup
+	stop2 := make(chan struct{})
+	wg2.Add(1)
+	cr := rand.New(rand.NewSource(r.Int63()))
+	go func() {
+		defer wg2.Done()
+		conn, err := grpc.NewClient(e.addr, grpc.WithTransportCredentials(insecure.NewCredentials()))
+		if err != nil {
+			return
+		}
+		defer conn.Close()
+		lc := regattapb.NewLogClient(conn)
+		for {
+			select {
+			case <-stop2:
+				return
+			default:
+			}
+			n := wnames[cr.Intn(len(wnames))]
+			e.mu.Lock()
+			last := e.lastRev[n]
+			e.mu.Unlock()
+			if last > 2 {
+				ctx, cancel := context.WithTimeout(context.Background(), 5*time.Second)
+				if st, err := lc.Replicate(ctx, &regattapb.ReplicateRequest{Table: []byte(n), LeaderIndex: 1 + uint64(cr.Int63n(int64(last)))}); err == nil {
+					for {
+						if _, err := st.Recv(); err != nil {
+							break
+						}
+					}
+					e.out.Count("second_consumer_polls")
+				}
+				cancel()
+			}
+			time.Sleep(time.Duration(5+cr.Intn(40)) * time.Millisecond)
+		}
+	}()
 	events := 2 + r.Intn(3)
 	for ev := 0; ev < events; ev++ {
 		for i := 0; i < 25+r.Intn(25); i++ {
@@ -364,6 +404,8 @@ func replScenario(out *Out, r *rand.Rand, sc int) {
 	}
 	wg.Wait()
 	close(stop)
+	close(stop2)
+	wg2.Wait()
 	// quiescence: content and index must become the leader's
 	e.waitConverged(names, 90*time.Second)
 	for _, n := range names {
